@@ -37,7 +37,7 @@ RULE = ("call histories drawn from a grammar: Integrate(k) with k in 0..remainin
         "Predict(next | foreign | already used increment), GetPva, GetTime, SetPva(random pva with VD != 0); "
         "INITIAL_SIZE in {1,2,3,5,8,10000}; both altitude modes; increments with both branches of "
         "mat_from_rotvec; thorough adds every history of <= 5 ops over {I0,I1,I2,I3,Pnext,Pforeign,S} at "
-        "capacity 2 and 3.  A case is distinct by (mode, capacity, op sequence); non-trivial if it "
+        "capacity 2 (2D) and 3 (3D), <= 4 ops for the other two mode/capacity pairs.  A case is distinct by (mode, capacity, op sequence); non-trivial if it "
         "integrates at least one increment")
 
 LABEL = 0.25                      # model time k : Z  <->  index label k * 0.25 (exact in binary64)
@@ -989,11 +989,12 @@ def check(r):
         ex_total = 0
         for cap in (2, 3):
             for alt in (True, False):
-                ex = list(exhaustive_histories(cap, alt, 5))
+                # full length 5 for (cap 2, 2D) and (cap 3, 3D); length 4 for the two cross combinations
+                ex = list(exhaustive_histories(cap, alt, 5 if (cap == 2) != alt else 4))
                 ex_total += len(ex)
                 p2, res2 = run_batch(r, ex, f"c02x{cap}{int(alt)}", workers)
                 problems += p2
-        r.coverage['exhaustive'] = dict(histories=ex_total, max_ops=5,
+        r.coverage['exhaustive'] = dict(histories=ex_total, max_ops="5 (cap 2 in 2D, cap 3 in 3D), 4 (cap 2 in 3D, cap 3 in 2D)",
                                         alphabet="I0 I1 I2 I3 Pnext Pforeign S (+ final G, T)",
                                         capacities=[2, 3], modes=['3D', '2D'])
         r.hygiene()
